@@ -7,8 +7,8 @@ package governance
 
 // gGovCtx: what the governance handlers need from the context beyond action.ctxOK (built by app.context.Action /
 // NewProposalMasterStore; A-GOVCTX until ctxOK carries it): the three proposal stores are present, the five stage prefixes
-// of the proposal store differ, its in-memory option set is present, and the fee currency is OLT
-//@ ghost func gGovCtx(ctx *action.Context) bool = wfPS(ctx.ProposalMasterStore.Proposal) && ctx.ProposalMasterStore.ProposalFund != nil && ctx.ProposalMasterStore.ProposalVote != nil && ctx.ProposalMasterStore.Proposal.proposalOptions != nil && ctx.FeePool.feeOpt.FeeCurrency.Name == "OLT"
+// of the proposal store differ, the fund store is aimed at a State, the in-memory option set is present, and the fee currency is OLT
+//@ ghost func gGovCtx(ctx *action.Context) bool = wfPS(ctx.ProposalMasterStore.Proposal) && ctx.ProposalMasterStore.ProposalFund != nil && ctx.ProposalMasterStore.ProposalFund.State != nil && ctx.ProposalMasterStore.ProposalVote != nil && ctx.ProposalMasterStore.Proposal.proposalOptions != nil && ctx.FeePool.feeOpt.FeeCurrency.Name == "OLT"
 
 // shorthands for the entry/exit record of proposal id in a stage of the context's proposal store
 //@ ghost func gaHas(ctx *action.Context, id governance.ProposalID) bool = propHas(ctx.ProposalMasterStore.Proposal, ctx.ProposalMasterStore.Proposal.prefixActive, id)
@@ -293,7 +293,7 @@ package governance
 //@   requires ctxOK(ctx) && gGovCtx(ctx) && proposal != nil && proposalDistribution != nil
 //@   requires gDistOK(*proposalDistribution)                                                                                          // C14.distribution-percentages
 //@   requires fund(gFStore(ctx))[totKey(proposal.ProposalID)] >= 0                                                                    // C14.store-invariant
-//@   modifies bal(ctx.Balances), balTotal(ctx.Balances), fee(ctx.FeePool)["00000000000000000000"], feeTotal(ctx.FeePool), fund(gFStore(ctx)), fundBad(gFStore(ctx)), fundSum(gFStore(ctx))[proposal.ProposalID], vHas(ctx.Balances.State), vVal(ctx.Balances.State), vHas(ctx.FeePool.state), vVal(ctx.FeePool.state), vHas(gFStore(ctx).State), vVal(gFStore(ctx).State)
+//@   modifies bal(ctx.Balances), balTotal(ctx.Balances), fee(ctx.FeePool)["00000000000000000000"], feeTotal(ctx.FeePool), fund(gFStore(ctx)), fundBad(gFStore(ctx)), fundSum(gFStore(ctx))[proposal.ProposalID], vHas(ctx.Balances.State), vVal(ctx.Balances.State), vHas(ctx.FeePool.state), vVal(ctx.FeePool.state), vHas(gFStore(ctx).State), vVal(gFStore(ctx).State), exhausted(gFStore(ctx).State.cache), exhausted(gFStore(ctx).State.txSession)
 //@   ensures result == nil ==> fund(gFStore(ctx))[totKey(proposal.ProposalID)] == 0                                                   // C14.funds-deleted
 //@   ensures result == nil ==> forall c string :: c != "OLT" ==> balTotal(ctx.Balances)[c] == old(balTotal(ctx.Balances))[c]          // C02.conserve
 // never exceeding what was contributed (and how much less: the burn share and at most the validators' rounding remainder)
